@@ -48,6 +48,10 @@ def main():
             print("      " + "\n      ".join(r.stdout.splitlines()[-6:]))
     sh("git -C %s checkout -q -- . && git -C %s clean -fdq" % (WT, WT))
     sh("rm -rf %s/*_out" % WT)
+    os.makedirs("/tmp/seedtests", exist_ok=True)
+    with open("/tmp/seedtests/%s.check.json" % os.path.basename(seed), "w") as f:
+        json.dump({"demo_unchanged_exit": r0.returncode, "demo_patched_exit": r1.returncode, "head": head,
+                   "checks": {k: {"exit": v[0], "keys": [x.split(" :: ")[0] for x in v[1]]} for k, v in results.items()}}, f, indent=1)
     return 0
 
 
